@@ -90,7 +90,7 @@ def run(ctx):
             kinds = ["n", "p"] + (["x", "d", "a"] if ev.startswith("R:") else [])      # d: ENOTDIR, a: EAGAIN (a timeout-class error)
             if ev.startswith("W:"):
                 # size of the data being written is not in the trace; torn lengths 0, 1 and two larger ones
-                kinds += ["t0", "t1", "t7", "t100000"]
+                kinds += ["t0", "t1", "t7", "t80", "t300", "t100000"]     # t80/t300: torn after one or a few complete packets / the header
             for k in kinds:
                 cases.append({"sc": sc, "base": pi, "baseline": line, "sched": [(idx, k)], "line": mk([(idx, k)]), "ev": ev})
         if thorough and len(trace) >= 2:
